@@ -179,21 +179,34 @@ func (m *Machine) step(th *Thread) (yielded bool) {
 }
 
 func (m *Machine) jump(fr *Frame, to *ssa.BasicBlock) {
-	// back edge accounting for unwinding bounds
-	if to.Index > fr.block.Index && fr.loops != nil {
-		// forward edge: (re-)entering a region; iteration counts of loops headed there start afresh
-		delete(fr.loops, to.Index)
-	}
-	if to.Index <= fr.block.Index {
+	// Unwinding bound: iterations are counted per natural loop. An edge u -> h is a back edge iff h dominates u (one more
+	// iteration of the loop headed by h); an edge into h from a block h does not dominate enters the loop afresh, so
+	// its count starts again (an inner loop is bounded per entry, not across the iterations of the loops around it).
+	if to.Dominates(fr.block) {
 		if fr.loops == nil {
 			fr.loops = map[int]int{}
 		}
 		fr.loops[to.Index]++
 		if fr.loops[to.Index] > m.H.Unwind && !fr.tolerant && !m.inPersistentInit {
 			m.stats.Truncated++
+			if _, inRepo := m.repoFuncName(fr.fn); inRepo && m.H.Opts["nonterm"] == "violation" {
+				// termination harness: a loop of the repository that is still running after the stated number of
+				// iterations is reported as a hang (confirmed natively by a run that does not finish in time)
+				m.report("hang", "terminates", m.curSite, fmt.Sprintf("loop in %s still running after %d iterations", fr.fn.Name(), m.H.Unwind), nil)
+				panic(&pathEnd{"unwind"})
+			}
 			m.inconclusive(fmt.Sprintf("unwinding assertion failed at %s in %s (unwind=%d)", m.curSite, fr.fn.Name(), m.H.Unwind))
 			panic(&pathEnd{"unwind"})
 		}
+	} else if fr.loops != nil {
+		delete(fr.loops, to.Index)
+	}
+	// irreducible control flow (a cycle without a dominating header) is not seen by the rule above: overall cap
+	fr.jumps++
+	if fr.jumps > 200*m.H.Unwind+100000 && !fr.tolerant && !m.inPersistentInit {
+		m.stats.Truncated++
+		m.inconclusive(fmt.Sprintf("more than %d jumps in one activation of %s (unwind=%d)", fr.jumps, fr.fn.Name(), m.H.Unwind))
+		panic(&pathEnd{"unwind"})
 	}
 	fr.prev = fr.block
 	fr.block = to
